@@ -39,7 +39,7 @@ fn pick_world(rng: &mut Rng, ws: &[(&str, u32)]) -> String {
     ws[rng.weighted(&w)].0.to_string()
 }
 
-const MAP_WORLDS: &[(&str, u32)] = &[("M16", 10), ("Mpod", 4), ("M208", 2), ("M64a", 2), ("M5", 2), ("M6", 2), ("Mz", 2), ("Mzz", 1), ("Ms", 2)];
+const MAP_WORLDS: &[(&str, u32)] = &[("M16", 10), ("Mpod", 4), ("M208", 2), ("M64a", 2), ("M128a", 1), ("M5", 2), ("M6", 2), ("Mz", 2), ("Mzz", 1), ("Ms", 2)];
 
 /// State-building operations that every map profile mixes in.
 const MAP_BUILD: &[(Kd, u32)] = &[(Kd::Insert, 30), (Kd::Remove, 14), (Kd::Extend, 3), (Kd::Clear, 1), (Kd::Reserve, 1), (Kd::ShrinkTo, 1), (Kd::ShrinkToFit, 1), (Kd::WithCapacity, 1), (Kd::Get, 2), (Kd::Entry, 2), (Kd::Retain, 1)];
@@ -257,7 +257,7 @@ fn spec_for_inner(prop: &str, thorough: bool, rng: &mut Rng) -> RunSpec {
         "C02" => {
             // safety monitors under cancellation: every iterator/drain/extract_if/entry may be dropped or
             // forgotten part-way; lying size hints; all layouts
-            let world = pick_world(rng, &[("M16", 3), ("Mpod", 2), ("M208", 2), ("M64a", 3), ("M5", 1), ("M6", 1), ("Mz", 1), ("Ms", 1)]);
+            let world = pick_world(rng, &[("M16", 3), ("Mpod", 2), ("M208", 2), ("M64a", 2), ("M128a", 2), ("M5", 1), ("M6", 1), ("Mz", 1), ("Ms", 1)]);
             let cfg = base_cfg(rng, 3);
             let mut g = gen(Family::Map, universe, with(MAP_CORE, &[(Kd::Iter, 8), (Kd::IntoIter, 8), (Kd::Drain, 8), (Kd::ExtractIf, 8), (Kd::Entry, 6), (Kd::Extend, 4), (Kd::CloneFrom, 2), (Kd::GetMany, 2), (Kd::FillNoAlloc, 1)], rng));
             g.allow_forget = true;
@@ -328,10 +328,11 @@ fn spec_for_inner(prop: &str, thorough: bool, rng: &mut Rng) -> RunSpec {
             let mut g = gen(Family::Map, universe, with(MAP_BUILD, &[(Kd::Iter, 30), (Kd::IntoIter, 10), (Kd::Drain, 8)], rng));
             g.macro_den = *rng.pick(&[10, 20]);
             let mut n_ops = n_ops;
-            if rng.below(12) == 0 && !["M208", "M64a"].contains(&world.as_str()) {
+            if rng.below(12) == 0 && !["M208", "M64a", "M128a"].contains(&world.as_str()) {
                 // short histories that may contain a mostly empty table of 131 072 buckets
                 g.big_tables = true;
                 g.weights.push((Kd::WithCapacity, 12));
+                g.weights.push((Kd::Extend, 8));
                 n_ops = n_ops.min(40);
             }
             RunSpec { world, cfg, gen: g, n_ops }
@@ -342,6 +343,13 @@ fn spec_for_inner(prop: &str, thorough: bool, rng: &mut Rng) -> RunSpec {
             let mut g = gen(Family::Map, universe, with(MAP_BUILD, &[(Kd::Retain, 14), (Kd::ExtractIf, 16), (Kd::Drain, 12)], rng));
             g.toggle_pct = 60;
             g.macro_den = *rng.pick(&[10, 20]);
+            let mut n_ops = n_ops;
+            if rng.below(12) == 0 && ["M16", "Mpod", "Mz"].contains(&world.as_str()) {
+                // short histories on tables of more than 2^16 occupied buckets
+                g.big_tables = true;
+                g.weights.push((Kd::Extend, 12));
+                n_ops = n_ops.min(30);
+            }
             RunSpec { world, cfg, gen: g, n_ops }
         }
         "C11" => {
